@@ -1,8 +1,8 @@
-from . import p_framing, p_status, p_call, p_simple, p_deadline, p_reconnect, p_shutdown, p_health, p_web, p_reflect, p_codegen
+from . import p_framing, p_status, p_call, p_simple, p_deadline, p_reconnect, p_shutdown, p_health, p_web, p_reflect, p_codegen, p_tls
 REGISTRY = {
     'C01': p_framing, 'C03': p_framing, 'C06': p_framing, 'C07': p_framing,
     'C04': p_status,
     'C02': p_call, 'C05': p_call, 'C08': p_call,
     'C12': p_simple, 'C10': p_simple, 'C20': p_simple,
-    'C09': p_deadline, 'C14': p_reconnect, 'C13': p_shutdown, 'C18': p_health, 'C16': p_web, 'C17': p_web, 'C19': p_reflect, 'C11': p_codegen,
+    'C09': p_deadline, 'C14': p_reconnect, 'C13': p_shutdown, 'C18': p_health, 'C16': p_web, 'C17': p_web, 'C19': p_reflect, 'C11': p_codegen, 'C15': p_tls,
 }
